@@ -231,6 +231,17 @@ def boundary_cases(op):
             base = (a - i) & M32
             out.append({"kind": "single", "ins": [op, 3, 1, i], "pc": 0, "regs": {"1": base}, "mem": memw})
             out.append({"kind": "single", "ins": [op, 1, 1, i], "pc": 0, "regs": {"1": base}, "mem": memw})
+        # loaded-VALUE grid: every boundary value of the access width at every byte offset, neighbours all-zero / all-one
+        w = rv32.LOAD_W[op]
+        vals = {1: [0, 1, 0x7F, 0x80, 0x81, 0xFE, 0xFF],
+                2: [0, 1, 0x7F, 0x80, 0xFF, 0x100, 0x7FFF, 0x8000, 0x8001, 0xFF00, 0xFFFE, 0xFFFF],
+                4: [0, 1, 0x80, 0xFFFF, 0x8000, 0x10000, 0x7FFFFFFF, 0x80000000, 0x80000001, 0xFFFF0000, 0xFFFFFFFE, 0xFFFFFFFF]}[w]
+        for off, v, fill in itertools.product(range(4), vals, [0, 0xFF]):
+            cells = {B + 4 + off + k: (v >> (8 * k)) & 0xFF for k in range(w)}
+            words = {}
+            for wa in (B, B + 4, B + 8):
+                words[str(wa)] = sum((cells.get(wa + k, fill)) << (8 * k) for k in range(4))
+            out.append({"kind": "single", "ins": [op, 3, 1, off - 4], "pc": 0, "regs": {"1": B + 8}, "mem": words})
     elif op in rv32.STORE_OPS:
         for a, i, v in itertools.product(ADDR_B, IMM_A, [0x11223344, 0xFFFFFF80]):
             base = (a - i) & M32
